@@ -42,7 +42,7 @@ def run(ctx):
                  "focus.cfg": cfg(5 if q else 6, 1, "AccSame", "S4" if scale != "x1" else "S3", topu, other="JoinToks" if q else "JoinToksT")}
         ctx.tlc("MemAccessMC", "ref.cfg", extra_files=files, tag="design:reference-semantics:" + scale)
         got = ctx.tlc("MemAccessMC", "g3.cfg", extra_files=files, design=False, tag="gen:" + scale)["emitted"]
-        nsim = (350 if q else 6000) if scale == "x1" else (120 if q else 2500)
+        nsim = (350 if q else 4000) if scale == "x1" else (120 if q else 1500)
         sim = ctx.tlc("MemAccessMC", "sim.cfg", extra_files=files, design=False, tag="sim:" + scale, workers=1,
                       simulate="num=%d" % nsim, depth=14, timeout=2400)["emitted"]
         ctx.extra.setdefault("exhaustive_programs", {})[scale] = len(got)
